@@ -2,7 +2,7 @@
    ONLY statements, each closed by [exact] of a lemma proved in proofs/, followed by Print Assumptions.
    The value type V is arbitrary (values are placed, never computed with): the theorems hold for
    int, float, complex and bool fields alike. *)
-From DF Require Import Prelude Constants_gen Region Mesh FieldCore QLemmas ListLemmas C01_axis C01_nd C01_lattice C02_core.
+From DF Require Import Prelude Constants_gen Region Mesh FieldCore QLemmas ListLemmas C01_axis C01_nd C01_lattice C02_core C02_geom.
 Open Scope Q_scope.
 
 (* --- number: broadcast to every cell and component; a non-zero number is rejected for vector fields --- *)
@@ -225,6 +225,141 @@ Theorem C02_accept_replaces_array_only : forall (V : Type) (vzero : V) (is_zero 
   as_array vzero is_zero (fmesh f) (fnv f) s = OK (farr f').
 Proof. exact accept_sets_array. Qed.
 Print Assumptions C02_accept_replaces_array_only.
+
+(* ===== phase 2: the statements in the property's own geometric words ===== *)
+
+(* [aligned m r a b]: r is a union of cells of m (corners pmin + a*cell, pmin + b*cell, 0 <= a < b <= n);
+   [centre_in m i r]: the centre of cell i lies in the closed region r;
+   [inside_box m p]: p has the mesh's dimension and pmin <= p <= pmax on every axis *)
+
+(* Mesh.region2slices of a lattice-aligned subregion is the index block [a, b-1] ... *)
+Theorem C02_subregion_block : forall (m : mesh), wf_mesh m -> forall (r : region) (a b : list Z),
+  aligned m r a b -> region2block m r = OK (a, map (fun z => (z - 1)%Z) b).
+Proof. exact region2block_aligned. Qed.
+Print Assumptions C02_subregion_block.
+
+(* ... and a cell index lies in that block iff the cell CENTRE lies in the subregion *)
+Theorem C02_block_iff_centre_in_subregion : forall (m : mesh), wf_mesh m -> forall (r : region) (a b : list Z),
+  aligned m r a b -> forall i, length i = length (pmin (reg m)) ->
+  (in_block a (map (fun z => (z - 1)%Z) b) i = true <-> centre_in m i r).
+Proof. exact block_iff_centre. Qed.
+Print Assumptions C02_block_iff_centre_in_subregion.
+
+(* the submesh mesh[subregion] is the subregion with b - a cells, and the centre of its cell i - a is
+   the centre of cell i of the mesh: a callable sub-value is evaluated at the mesh's cell centres *)
+Theorem C02_submesh_centres : forall (m : mesh), wf_mesh m -> forall (r : region) (a b : list Z),
+  aligned m r a b -> forall sm, mesh_by_cell r (cell m) = OK sm ->
+  reg sm = r /\ n sm = map2 Z.sub b a /\
+  forall i, length i = length (pmin (reg m)) -> forall x, (x < length (pmin (reg m)))%nat ->
+    nth x (centre sm (map2 Z.sub i a)) 0 == nth x (centre m i) 0.
+Proof. exact submesh_spec. Qed.
+Print Assumptions C02_submesh_centres.
+
+(* the dictionary rule: the first-listed subregion (among those with a key) CONTAINING the cell centre
+   decides, its sub-value being evaluated on the submesh (same centres); otherwise the default;
+   with neither the specification is rejected (C02_dict_missing_default) *)
+Theorem C02_dict_first_containing : forall (V : Type) (vzero : V) (is_zero : V -> bool) (m : mesh) (nv : nat)
+    (items : list (string * sspec V)) (d : ddefault V) arr,
+  wf_mesh m ->
+  (forall rs, In rs (keyed m items) -> exists a b, aligned m (fst rs) a b) ->
+  as_array_dict vzero is_zero m nv items d = OK arr ->
+  forall i, In i (indices_xfast (n m)) ->
+    (exists l1 r sv l2 sm sub a b,
+        keyed m items = l1 ++ (r, sv) :: l2 /\
+        (forall rs, In rs l1 -> ~ centre_in m i (fst rs)) /\ centre_in m i r /\
+        aligned m r a b /\ mesh_by_cell r (cell m) = OK sm /\
+        as_array_simple vzero is_zero sm nv sv = OK sub /\
+        arr i = sub (map2 Z.sub i a) /\
+        forall x, (x < length (pmin (reg m)))%nat ->
+          nth x (centre sm (map2 Z.sub i a)) 0 == nth x (centre m i) 0)
+    \/
+    ((forall rs, In rs (keyed m items) -> ~ centre_in m i (fst rs)) /\ default_rule V vzero m nv d arr i).
+Proof. exact dict_first_containing. Qed.
+Print Assumptions C02_dict_first_containing.
+
+(* source field on an arbitrary containing mesh, n-d: every target cell receives the value of a source
+   cell whose closed extent contains the target cell centre *)
+Theorem C02_source_field : forall (V : Type) (t : mesh) (nv : nat) (src : fstate V) a (i : zidx),
+  wf_mesh t -> wf_mesh (fmesh src) ->
+  length (pmin (reg (fmesh src))) = length (pmin (reg t)) ->
+  (forall x, (x < length (pmin (reg t)))%nat ->
+     nth x (pmin (reg (fmesh src))) 0 <= nth x (pmin (reg t)) 0 /\
+     nth x (pmax (reg t)) 0 <= nth x (pmax (reg (fmesh src))) 0) ->
+  as_array_field t nv src = OK a -> in_range (n t) i ->
+  exists j, a i = farr src j /\ length j = length (pmin (reg t)) /\
+    forall x, (x < length (pmin (reg t)))%nat ->
+      let s := fmesh src in
+      let lo := nth x (pmin (reg s)) 0 in let c := nth x (cell s) 0 in let q := nth x (centre t i) 0 in
+      (0 <= nth x j 0 < nth x (n s) 1)%Z /\
+      lo + inject_Z (nth x j 0%Z) * c <= q /\ q <= lo + (inject_Z (nth x j 0%Z) + 1) * c.
+Proof. exact @source_field_cell. Qed.
+Print Assumptions C02_source_field.
+
+(* ... and this does not depend on the library's tie rule: ANY n-d index whose centre is nearest on
+   every axis is such a cell *)
+Theorem C02_source_any_nearest_pick : forall (s : mesh), wf_mesh s -> forall (q : list Q) (jl : zidx),
+  inside_box s q -> length jl = length (pmin (reg s)) ->
+  (forall x, (x < length (pmin (reg s)))%nat ->
+     let lo := nth x (pmin (reg s)) 0 in let c := nth x (cell s) 0 in
+     (0 <= nth x jl 0 < nth x (n s) 1)%Z /\
+     forall j, (0 <= j < nth x (n s) 1)%Z ->
+       Qabs (i2p1 lo c (nth x jl 0%Z) - nth x q 0) <= Qabs (i2p1 lo c j - nth x q 0)) ->
+  forall x, (x < length (pmin (reg s)))%nat ->
+    let lo := nth x (pmin (reg s)) 0 in let c := nth x (cell s) 0 in
+    lo + inject_Z (nth x jl 0%Z) * c <= nth x q 0 /\ nth x q 0 <= lo + (inject_Z (nth x jl 0%Z) + 1) * c.
+Proof. exact source_nearest_contains_nd. Qed.
+Print Assumptions C02_source_any_nearest_pick.
+
+Theorem C02_target_centres_in_source : forall (t s : mesh) (i : zidx),
+  wf_mesh t -> length (pmin (reg s)) = length (pmin (reg t)) ->
+  (forall x, (x < length (pmin (reg t)))%nat ->
+     nth x (pmin (reg s)) 0 <= nth x (pmin (reg t)) 0 /\ nth x (pmax (reg t)) 0 <= nth x (pmax (reg s)) 0) ->
+  in_range (n t) i -> inside_box s (centre t i).
+Proof. exact target_centres_in_source. Qed.
+Print Assumptions C02_target_centres_in_source.
+
+(* every point of the closed region is accepted by point2index (sampling never fails inside) *)
+Theorem C02_inside_point_indexed : forall (m : mesh), wf_mesh m -> forall p,
+  inside_box m p -> point2index m p = OK (nearest_idx m p).
+Proof. exact p2i_ok. Qed.
+Print Assumptions C02_inside_point_indexed.
+
+(* line, n-d: all points lie inside the region when p1 and p2 do (convexity) ... *)
+Theorem C02_line_points_inside : forall (m : mesh) p1 p2 k p,
+  inside_box m p1 -> inside_box m p2 -> (2 <= k)%Z -> In p (line_points p1 p2 k) -> inside_box m p.
+Proof. exact line_points_inside_nd. Qed.
+Print Assumptions C02_line_points_inside.
+
+(* ... whatever field.line returns: the requested points and, point by point, the samples there *)
+Theorem C02_line_values : forall (V : Type) (f : fstate V) p1 p2 k l,
+  field_line f p1 p2 k = OK l ->
+  (2 <= k)%Z /\ contains_pt (reg (fmesh f)) p1 = true /\ contains_pt (reg (fmesh f)) p2 = true /\
+  l_points l = line_points p1 p2 k /\
+  Forall2 (fun p v => sample f p = OK v) (l_points l) (l_values l) /\
+  l_r2 l = map (fun p => dist2 p (hd [] (l_points l))) (l_points l).
+Proof. exact line_values. Qed.
+Print Assumptions C02_line_values.
+
+(* ... and for end points inside the region and k >= 2 the line IS returned: k points, each value the
+   stored value of the cell point2index assigns to the point (C01: the cell containing it) *)
+Theorem C02_line_accepted : forall (V : Type) (f : fstate V) p1 p2 k,
+  wf_mesh (fmesh f) -> inside_box (fmesh f) p1 -> inside_box (fmesh f) p2 -> (2 <= k)%Z ->
+  exists l, field_line f p1 p2 k = OK l /\ l_points l = line_points p1 p2 k /\
+            length (l_values l) = Z.to_nat k /\
+            Forall2 (fun p v => exists i, point2index (fmesh f) p = OK i /\ v = farr f i)
+                    (l_points l) (l_values l).
+Proof. exact line_accepts. Qed.
+Print Assumptions C02_line_accepted.
+
+(* non-vacuity of [aligned] / [inside_box]: a 2 x 2 block of a 4 x 6 mesh *)
+Example C02_nonvacuous_aligned :
+  let r := mkRegion [0; (-1)] [4; 2] ["x"%string; "y"%string] ["m"%string; "m"%string] (1 # 1000000000000) in
+  let m := mkMesh r [4; 6]%Z "" [] in
+  let s := mkRegion [1; (-1)] [3; 0] ["x"%string; "y"%string] ["m"%string; "m"%string] (1 # 1000000000000) in
+  wf_mesh m /\ aligned m s [1; 0]%Z [3; 2]%Z /\
+  region2block m s = OK ([1; 0]%Z, [2; 1]%Z) /\
+  inside_box m [4; (-1)] /\ inside_box m [0; 2].
+Proof. exact nonvacuous_aligned. Qed.
 
 (* non-vacuity: a concrete well-formed mesh, an in-range cell, a sampled centre *)
 Example C02_nonvacuous :
